@@ -27,8 +27,10 @@ import (
 )
 
 const (
-	avoidAlias = "alias_across_snapshot"   // C09-F01: a tree-shaped document cannot carry aliasing
+	avoidAlias = "alias_across_snapshot"    // C09-F01: a tree-shaped document cannot carry aliasing
 	avoidDag   = "shared_reported_as_cycle" // C09-F02: ToJSON reports a shared (acyclic) container as a cycle
+	avoidMacro = "macro_before_snapshot"    // C09-F04: dice macros in force at a definition are not part of the snapshot
+	sigMacro   = "class:" + avoidMacro
 	sigAlias   = "class:" + avoidAlias
 	sigDag     = "class:" + avoidDag
 	workCeil   = 3_000_000
@@ -57,7 +59,7 @@ type shape struct {
 	NonFinite bool
 	Native    bool
 	MultiKey  bool // some dict has two or more keys (its text form depends on Go map order)
-	Depth     int // container nesting below a variable: [1] is 1, [[1]] is 2, a computed value's attribute map counts
+	Depth     int  // container nesting below a variable: [1] is 1, [[1]] is 2, a computed value's attribute map counts
 	Funcs     int
 	Comps     int
 	lazy      []*ds.VMValue // functions and computed values met
@@ -400,6 +402,16 @@ func checkCase(c Case, s *rt.Section) (*rt.Failure, info) {
 			in.sharedRead = true
 		}
 	}
+	for i := 0; i < c.Cut; i++ {
+		// a function defined under a dice macro is compiled with the macro's switches, and recompiled without them after
+		// a restore (C09-F04); the generators never write macros, this only classifies hand-written cases
+		if strings.Contains(c.Segs[i], "#EnableDice") {
+			if s.Avoid(avoidMacro) {
+				return nil, in
+			}
+			tag = func(string) string { return sigMacro }
+		}
+	}
 	before := vmx.AttrsRepr(A)
 	doc, err, pi := snapshotStore(A, c.Mode)
 	if pi != nil {
@@ -527,7 +539,17 @@ func checkCase(c Case, s *rt.Section) (*rt.Failure, info) {
 					continue
 				}
 			}
-			f := s.NewFailure("follow-up", tag("c09:follow/"+x.what), c, fmt.Sprintf("%s: restored %s = %s", where, x.what, clip(x.b, 500)),
+			sig := "c09:follow/" + x.what
+			if x.what == "ops" {
+				// more operations after the restore (C09-F03: +1 per evaluation of a restored body) or fewer
+				sig = "c09:follow/ops-fewer"
+				if d := ob.ops - oa.ops; d > 0 && d <= oa.ops/100+1 {
+					sig = "c09:follow/ops-more"
+				} else if d > 0 {
+					sig = "c09:follow/ops-many-more"
+				}
+			}
+			f := s.NewFailure("follow-up", tag(sig), c, fmt.Sprintf("%s: restored %s = %s", where, x.what, clip(x.b, 500)),
 				fmt.Sprintf("original %s = %s", x.what, clip(x.a, 500)))
 			if x.what == "ops" {
 				if opsFailure == nil {
